@@ -1,4 +1,5 @@
 mod gen;
+mod hist;
 mod lang;
 mod mk;
 mod model;
@@ -391,6 +392,155 @@ fn reobserve(a: &HashMap<String, String>) -> i32 {
     0
 }
 
+/// impl -> spec for execution-context histories (C08, C17)
+fn gen_hist(a: &HashMap<String, String>) {
+    use hist::*;
+    let seed: u64 = a.get("seed").and_then(|s| s.parse().ok()).unwrap_or(1);
+    let n: usize = a.get("n").and_then(|s| s.parse().ok()).unwrap_or(50);
+    let len: usize = a.get("len").and_then(|s| s.parse().ok()).unwrap_or(40);
+    let out = a.get("out").cloned().unwrap_or_else(|| ".".into());
+    let listy = geti(a, "listpct", 15);
+    let mut r = rng_from(seed);
+    quiet_panics();
+    let lists = [("set", Ty::Int), ("set", Ty::Bytes), ("always", Ty::Ip)];
+    let specs = vec![
+        rich_scheme(true, true, true, &lists),
+        rich_scheme(true, true, true, &lists), // structurally identical, distinct scheme
+    ];
+    write_ndjson(&format!("{out}/schemes.ndjson"), &specs);
+    write_ndjson::<Value>(&format!("{out}/ctxs.ndjson"), &[]);
+    let mut tw = BufWriter::new(File::create(format!("{out}/trace.ndjson")).unwrap());
+    let mut nev = 0u64;
+    let mut stats: HashMap<String, u64> = HashMap::new();
+    let mut emit = |tw: &mut BufWriter<File>, v: Value| {
+        serde_json::to_writer(&mut *tw, &v).unwrap();
+        tw.write_all(b"\n").unwrap();
+    };
+    for h in 0..n {
+        let mut w = HWorld::new(specs.clone());
+        let init = vec![1usize, 2usize];
+        for &sid in &init {
+            w.new_ctx(sid);
+        }
+        emit(&mut tw, json!({"ev": "reset", "id": nev, "h": h, "init": init}));
+        nev += 1;
+        for _ in 0..len {
+            let alive: Vec<usize> = (1..=w.ctxs.len()).filter(|&c| w.ctxs[c - 1].is_some()).collect();
+            let c = alive[r.random_range(0..alive.len())];
+            let sid = w.sch_of[c - 1];
+            let spec = &specs[sid - 1];
+            let f = &spec.fields[r.random_range(0..spec.fields.len())];
+            let mk_set = |r: &mut rand::rngs::StdRng| -> Value {
+                let f = &spec.fields[r.random_range(0..spec.fields.len())];
+                let v = if r.random_range(0..10) < 7 { gen_val(r, &f.ty, 0) } else { wrong_typed(r, &f.ty) };
+                let name_unknown = r.random_range(0..12) == 0;
+                // a FieldRef can only exist for a declared field
+                let how = if !name_unknown && r.random_range(0..3) == 0 { "field" } else { "name" };
+                let fsch = if r.random_range(0..6) == 0 { 3 - sid } else { sid };
+                let name = if name_unknown { "nosuch".to_string() } else { f.name.clone() };
+                json!({"op": "set", "c": c, "how": how, "fsch": fsch, "name": name, "v": v})
+            };
+            let x = r.random_range(0..100);
+            let op: Value = if x < 45 {
+                mk_set(&mut r)
+            } else if x < 55 {
+                json!({"op": "get", "c": c, "name": f.name})
+            } else if x < 58 {
+                json!({"op": "clear", "c": c})
+            } else if x < 63 && w.ctxs.len() < 7 {
+                json!({"op": "clone", "c": c})
+            } else if x < 65 && w.ctxs.len() < 7 {
+                json!({"op": "take", "c": c})
+            } else if x < 70 {
+                let k = r.random_range(1..4);
+                let mut ops = Vec::new();
+                for _ in 0..k {
+                    ops.push(match r.random_range(0..5) {
+                        0 => json!({"op": "get", "c": c, "name": f.name}),
+                        1 => json!({"op": "clear", "c": c}),
+                        _ => mk_set(&mut r),
+                    });
+                }
+                json!({"op": "borrow", "c": c, "ops": ops})
+            } else if x < 70 + listy {
+                let li = r.random_range(0..2) + 1;
+                let m = gen_matcher(&mut r, &spec.lists[li - 1], "set");
+                json!({"op": "setlist", "c": c, "li": li, "m": m})
+            } else if x < 95 {
+                // execute a filter parsed with this or the twin scheme
+                let mut hints = Vec::new();
+                let snapshot: CtxSpec = serde_json::from_value(w.abs(c)).unwrap_or(CtxSpec { sch: sid, vals: vec![], lists: vec![] });
+                collect_hints(&snapshot, &mut hints);
+                let mut g = FilterGen {
+                    r: &mut r,
+                    spec,
+                    max_depth: 2,
+                    hints,
+                    call_pct: 15,
+                    list_pct: 35,
+                    set_pct: 10,
+                    set_max: 3,
+                    nest_pct: 20,
+                    badname_pct: 0,
+                };
+                let ts = g.filter();
+                let fsch = if r.random_range(0..8) == 0 { 3 - sid } else { sid };
+                json!({"op": "exec", "c": c, "fsch": fsch, "ts": ts})
+            } else {
+                let v = gen_val(&mut r, &f.ty, 0);
+                let v = if r.random_range(0..2) == 0 { spoil(&mut r, &v) } else { v };
+                json!({"op": "mkval", "c": c, "v": v})
+            };
+            let res = w.apply(&op);
+            *stats.entry(format!("{}.{}", op["op"].as_str().unwrap(), res["out"].as_str().unwrap())).or_default() += 1;
+            let touched = match op["op"].as_str().unwrap() {
+                "clone" | "take" | "new" => w.ctxs.len(),
+                _ => c,
+            };
+            emit(&mut tw, json!({"ev": "op", "id": nev, "h": h, "op": op, "res": res, "c": touched, "after": w.abs(touched)}));
+            nev += 1;
+        }
+    }
+    tw.flush().unwrap();
+    println!("{}", serde_json::to_string(&json!({"events": nev, "histories": n, "stats": stats})).unwrap());
+}
+
+/// spec -> impl for histories
+fn replay_hist_cmd(a: &HashMap<String, String>) -> i32 {
+    let path = a.get("in").expect("--in");
+    let out = a.get("out").cloned().unwrap_or_else(|| "/dev/null".into());
+    let f = BufReader::new(File::open(path).unwrap());
+    let mut ow = BufWriter::new(File::create(&out).unwrap());
+    let (mut n, mut bad, mut steps) = (0u64, 0u64, 0u64);
+    let mut schs: Option<Value> = None;
+    for line in f.lines() {
+        let line = line.unwrap();
+        if line.trim().is_empty() {
+            continue;
+        }
+        let mut v: Value = serde_json::from_str(&line).expect("vector json");
+        if v.get("hdr").is_some() {
+            schs = Some(v["schs"].clone());
+            continue;
+        }
+        if v.get("schs").is_none() {
+            v["schs"] = schs.clone().expect("schemes header");
+        }
+        n += 1;
+        steps += v["ops"].as_array().map(|o| o.len() as u64).unwrap_or(0);
+        let (obs, diffs) = hist::replay_hist(&v);
+        if !diffs.is_empty() {
+            bad += 1;
+            let src = serde_json::to_string(&v["ops"]).unwrap();
+            serde_json::to_writer(&mut ow, &json!({"vector": v, "src": src, "observed": obs, "diffs": diffs})).unwrap();
+            ow.write_all(b"\n").unwrap();
+        }
+    }
+    ow.flush().unwrap();
+    println!("{}", serde_json::to_string(&json!({"vectors": n, "mismatches": bad, "runs": steps})).unwrap());
+    if bad > 0 { 1 } else { 0 }
+}
+
 fn main() {
     let args: Vec<String> = std::env::args().collect();
     if args.len() < 2 {
@@ -405,6 +555,11 @@ fn main() {
         }
         "replay" => replay(&a),
         "reobserve" => reobserve(&a),
+        "gen-hist" => {
+            gen_hist(&a);
+            0
+        }
+        "replay-hist" => replay_hist_cmd(&a),
         other => {
             eprintln!("unknown subcommand {other}");
             2
